@@ -234,6 +234,12 @@ def run_property(spec, tier='quick', seed=0, root='/repo', jobs=None):
             why = 'unsupported: ' + '; '.join(sorted(set(r['unsupported']))[:3])
             target = spec.targets.get(r['unit'])
             w, n = None, 0
+            ub = getattr(spec, 'unit_bounded', None)
+            if target is None and ub is not None:
+                try:
+                    w, n = ub(r['unit'], tier, seed)
+                except Exception as e:
+                    why += f' (bounded stand-in failed: {e!r})'
             if target is not None:
                 # the front end cannot lower this (changed) function: bounded stand-in on the real code, same contract
                 try:
